@@ -257,17 +257,29 @@ prop("C19", level="exploration", bounded=True,
      trusted_base=[])
 
 prop("C20", level="exploration", bounded=True,
-     technique="bounded: a decoder written from the documented layouts only, applied to the real codec's output over an exhaustive small scope",
-     text="Bounded (not proved): every fiber over 4 coordinates x {U,C,B}; coordinate lists over 9 coordinates; every other (quick) / every (thorough) "
-          "depth-2 tree over 3 coordinates (explicit defaults, empty sub-fibers, all-zero tensor) x all 9 descriptors; seeded random depth-3 tensors x "
-          "random descriptors; each with and without an imposed larger shape. (1) A decoder written from the layouts alone (implicit positions, explicit "
-          "coordinates, bit masks, per-child cumulative occupancies as segment ends, fibers of a rank in depth-first order) must return exactly the "
-          "original content and consume every array completely; (2) leaf fibers are scanned through their own handle interface with a stub cache; "
-          "(3) coordToHandle of every C leaf for every query == first stored coordinate not below it; (4) getSize of leaf fibers == words of the layout. "
-          "No deductive part: Codec.encode recurses through dynamically chosen format classes appending to shared per-rank lists (DESIGN section 4 C20); "
-          "coordToHandle's binary search uses float division and math.ceil and is interleaved with cache/statistics dictionary updates.",
-     note="Exploration level. getSize is checked for leaf fibers only (for interior fibers the statement's 'payload entries' is ambiguous between child handles and none).",
-     trusted_base=[])
+     technique="deductive contracts on the real leaf-rank encoders and the handle interface of the U, C and B formats (pyvc); bounded: a decoder written from the documented layouts only, applied to the real codec's output over an exhaustive small scope",
+     text="Proved (pyvc, unbounded in fiber lengths and dimensions, leaf rank): encodeFiber of the three formats stores exactly what the fiber presents - "
+          "C: its coordinates explicitly and the values of its boxes, in order; U: one payload entry per coordinate of the dimension holding the stored value "
+          "or the default; B: a fresh mask with 1 exactly at the presented coordinates (IndexError beyond the dimension) and compressed payloads in order. "
+          "coordToHandle of a C fiber (binary search with a ceil midpoint) returns the handle of the first stored coordinate not below the query, None when there "
+          "is none, for every strictly ascending coordinate list; U and B map a coordinate to itself (None outside the shape for U). Scanning through the handle "
+          "interface: setupSlice positions a C / U scan at the slice base, nextInSlice returns consecutive handles up to the end of the stored coordinates (C) / "
+          "of the shape (U), and for B the next set mask bit at or after the scan position paired with the running payload handle, advancing both by one; "
+          "handleToCoord / handleToPayload / payloadToValue address the stored coordinate / payload at that index; countLeft returns the number of set bits to the "
+          "left of a mask position (defined prefix sums). getSize of a leaf fiber == words of its layout (C: coordinates + payloads; U: payloads; B: ceil(bits / "
+          "word size) + payloads). All of these are also shown to leave the stored arrays untouched (frames). "
+          "Bounded (not proved): interior ranks (occupancies as segment ends, depth-first order of a rank's fibers), Codec.encode's recursion through dynamically "
+          "chosen format classes, the YAML output arrays, and the end-to-end statement: every fiber over 4 coordinates x {U,C,B}; coordinate lists over 9 "
+          "coordinates; every other (quick) / every (thorough) depth-2 tree over 3 coordinates (explicit defaults, empty sub-fibers, all-zero tensor) x all 9 "
+          "descriptors; seeded random depth-3 tensors x random descriptors; each with and without an imposed larger shape. A decoder written from the layouts alone "
+          "must return exactly the original content and consume every array completely; leaf fibers are scanned through their handle interface with a stub cache; "
+          "coordToHandle of every C leaf for every query; getSize of leaf fibers.",
+     note="Exploration level: the end-to-end round trip is decided only within the stated bounds. Assumed (external, no source in the repository): the cache object plugged into "
+          "an encoded fiber and the statistics / output dictionaries touch only their own state; math.ceil/floor(i / c) and float(i) on ints are exact (true below 2**53); "
+          "Fiber.__iter__ presents a strictly ascending sequence of boxes at a leaf (tier B, exercised by C07's bounded part). getSize is checked for leaf fibers only.",
+     trusted_base=["external Cache / StatsDict / OutDict / OutList objects touch only their own state (trusted contracts)",
+                   "Fiber.__iter__ tier-B contract: strictly ascending presented sequence, boxes at a leaf rank, coordinates stored or inside the active range",
+                   "math.ceil / math.floor / float on ints treated as exact integer arithmetic"])
 
 prop("C17", level="exploration", bounded=True,
      technique="bounded: policy oracles computed independently from the traces (distinct (line, window) pairs; exhaustive optimal replacement with bypass)",
